@@ -21,12 +21,12 @@ CORE = {'boolean': 'xs:boolean', 'integer': 'xs:integer', 'real': 'xs:decimal', 
 def run(ctx):
     repo = ctx.repo
     ki = kindrules.infer(repo, XSD)
-    kindrules.kinds_rule(ctx, 'C20-KINDS', XSD, 20, ki)
-    dispatch(ctx)
-    enum_order(ctx)
-    scope(ctx)
-    attr(ctx)
-    xml(ctx)
+    ctx.guard(kindrules.kinds_rule, ctx, 'C20-KINDS', XSD, 20, ki)
+    ctx.guard(dispatch, ctx)
+    ctx.guard(enum_order, ctx)
+    ctx.guard(scope, ctx)
+    ctx.guard(attr, ctx)
+    ctx.guard(xml, ctx)
     ctx.assume('completeness of the generated schema against a concrete model is not decided')
     return ('Schema type-check of gen_xsd_schema navigations; agreement of get_type_name / build_type / build_core_type '
             'dispatch tables; succession-order reader rule on R56/R46; scope predicates; attribute mapping patterns; '
@@ -151,7 +151,9 @@ def attr(ctx):
     lp = [n for n in ast.walk(bc) if isinstance(n, ast.For)]
     ok = len(lp) == 1 and pm.match('nav_many(o_obj).O_ATTR[102]()', lp[0].iter) is not None
     r.check(ok, 'all attributes of the class (R102) are visited', bc, construct=Q, key='iter', msg='build_class does not iterate nav_many(o_obj).O_ATTR[102]()')
-    r.check(pm.contains('_R = get_refered_attribute(o_attr)', bc) and pm.contains('_S = nav_one(_R).S_DT[114]()', bc),
+    refv = [pm.match('_R = get_refered_attribute(o_attr)', n) for n in ast.walk(bc) if isinstance(n, ast.Assign)]
+    refv = [m['_R'].id for m in refv if m]
+    r.check(bool(refv) and pm.contains('_S = nav_one(%s).S_DT[114]()' % (refv[0] if refv else 'x'), bc),
             'the type is taken from the referred base attribute', bc, construct=Q, key='referred',
             msg='build_class does not type an attribute by the S_DT (R114) of get_refered_attribute(o_attr)')
     ok = any(isinstance(n, ast.While) and src(n.test) == 'nav_one(s_dt).S_UDT[17]()' and
